@@ -430,6 +430,9 @@ def C18(ctx):
     pyshape.rule_lc_marks(ctx, m)
     cshape.rule_sibling_skeleton(ctx, m, ['dtw_warping_paths_affinity_ndim'])
     wps.rule_wps_readers(ctx, m, affinity=True)
+    # cells below the diagonal are blanked (only_triu) inside the row they belong to
+    with ctx.scoped(has('affinity')):
+        wps.rule_wps_bounds(ctx, m, tier=ctx.tier)
     with ctx.scoped(has('dtw_best_path_affinity')):
         wps.rule_best_path_moves(ctx, m)
 
@@ -479,7 +482,7 @@ EXPL = {
     'C07': 'Static sufficient condition for determinism of each parallel for: complete privatisation, single shared output with disjoint slots from the '
            'prefix-sum plan, re-entrant callees; order-preserving pool primitive and pair order in the multiprocessing branches.',
     'C08': 'Allocation/use agreement of compact buffers and index arrays, no accumulator shadowing, n-D stride form, psi-derived index ranges clamped to the '
-           'band-sized buffers (bounds obligations with concrete witnesses), compact-layout position bounds per region.',
+           'band-sized buffers (bounds obligations with concrete witnesses), compact-layout position bounds per region (column loop and blanked prefix, all four writers).',
     'C09': 'LB_Keogh envelope range equals the DTW band in all three copies, scan accumulators initialised correctly, Euclidean distance padding element and '
            'stride form, only_ub returns the result domain, bound variants match kernel variants.',
     'C10': 'Band relation symmetric/monotone/window-1 corollary proved on the extracted band terms; recurrence symmetric in the two non-diagonal steps; psi '
@@ -492,9 +495,9 @@ EXPL = {
     'C14': 'Candidate loop as path/typestate problem: LB only when valid, strict comparators, threshold follows the heap root, distances defined on every path, cache typestate; LB_Keogh envelope window = DTW band in both engines.',
     'C15': 'Merge loop writes only +inf into the matrix, guard dominates merges and the minimum is recomputed on every path back; blanking covers the merged '
            'series; linkage hook appends one row per merge; SciPy condensed order.',
-    'C16': 'Final assignment post-dominates the last write of the means; partition construction; iteration counter; nearest-mean helpers as siblings; seeding blocks; option domains of the C distances that decide "nearest".',
+    'C16': 'Final assignment post-dominates the last write of the means; partition construction; iteration counter; nearest-mean helpers as siblings; seeding blocks; option domains of the C distances that decide "nearest"; the options dict is used through the mapping interface only (no attribute access on a field that is expanded with **).',
     'C17': 'dp.dp is a scheme instance with per-pair (substitution, indel) costs applied as fn(s1[i], s2[j]); arrow table agreement writer/reader; gap emission; negation of value and matrix together; border gap cost = indel cost of the substitution function; the no-cell-under-max_dist exit cannot fire on an empty row.',
-    'C18': 'Affinity recurrence normal form in Python and the C region expansions, option forwarding (also for iterated, non-returned wrapping calls), entry points, identity tests, scan initialisers, negativize/positivize duality, consumed-cell marks idempotent and undone by the reset.',
+    'C18': 'Affinity recurrence normal form in Python and the C region expansions, option forwarding (also for iterated, non-returned wrapping calls), entry points, identity tests, scan initialisers, negativize/positivize duality, consumed-cell marks idempotent and undone by the reset; the cells blanked below the diagonal (only_triu) stay inside their row.',
     'C19': 'Dispatch chains, monotonicity/range calculus per arm, reported-parameter completeness, documented formula agreement, keep_sign offset Xz = f(0) in every branch (closed forms normalised with sympy).',
     'C20': 'No store through series parameters in Python or C, contiguity before raw pointers, private container storage, optional-NumPy symmetry, module state and per-object history.',
 }
